@@ -213,6 +213,7 @@ type c19SBlk struct {
 	rngEf []*c19Effect
 	rngOK bool
 	exit  bool
+	loop  bool // the first block of a loop body (for / range)
 	in    map[uint32]bool
 }
 
@@ -248,6 +249,9 @@ type c19Flow struct {
 
 	ghostInit uint32
 	ghost     func(sn *c19SNode, st uint32) []uint32
+	// ghostEdge (optional): the ghost state after taking the edge from b to its k-th successor s (events that are
+	// edges of the graph: a branch of a condition taken, a loop body entered)
+	ghostEdge func(b *c19SBlk, k int, s *c19SBlk, st uint32) uint32
 	feasibleX func(fl *c19Flow, st uint32) bool
 
 	feas    map[uint32]bool
@@ -511,6 +515,7 @@ func (fl *c19Flow) buildFrame(fr *c19Frame) (*c19SBlk, []*c19SBlk) {
 				cur.rng = rs
 			}
 		}
+		cur.loop = b.Kind == cfg.KindRangeBody || b.Kind == cfg.KindForBody
 		for i, n := range b.Nodes {
 			if call, lhs := c19InlineSite(n); call != nil {
 				if sub, binds := fl.prepareInline(fr, call); sub != nil {
@@ -1620,32 +1625,26 @@ func c19RawEffects(c *Ctx, info *types.Info, n ast.Node, errp *string, where str
 				ef.rhs = c19LinOf(info, s.X).addK(d)
 			}
 			assigns = append(assigns, ef)
-		case *ast.DeclStmt:
-			if gd, ok := s.Decl.(*ast.GenDecl); ok && gd.Tok == token.VAR {
-				for _, sp := range gd.Specs {
-					vs, ok := sp.(*ast.ValueSpec)
-					if !ok {
-						continue
-					}
-					for i, name := range vs.Names {
-						switch {
-						case len(vs.Values) == len(vs.Names):
-							assigns = append(assigns, one(name, vs.Values[i], token.DEFINE))
-						case len(vs.Values) == 0:
-							ef := one(name, nil, token.DEFINE)
-							if ef.kind == 'a' {
-								if c19IsIntType(info.TypeOf(name)) {
-									ef.rhs = c19NewLin()
-								}
-								if c19IsBoolType(info.TypeOf(name)) {
-									ef.rhsBool = 0
-								}
-							}
-							assigns = append(assigns, ef)
-						default:
-							assigns = append(assigns, one(name, nil, token.DEFINE))
+		case *ast.ValueSpec:
+			// go/cfg lowers `var x T = v` to one ValueSpec node per specification (constants never reach the graph)
+			vs := s
+			for i, name := range vs.Names {
+				switch {
+				case len(vs.Values) == len(vs.Names):
+					assigns = append(assigns, one(name, vs.Values[i], token.DEFINE))
+				case len(vs.Values) == 0:
+					ef := one(name, nil, token.DEFINE)
+					if ef.kind == 'a' {
+						if c19IsIntType(info.TypeOf(name)) {
+							ef.rhs = c19NewLin()
+						}
+						if c19IsBoolType(info.TypeOf(name)) {
+							ef.rhsBool = 0
 						}
 					}
+					assigns = append(assigns, ef)
+				default:
+					assigns = append(assigns, one(name, nil, token.DEFINE))
 				}
 			}
 		}
@@ -2127,6 +2126,9 @@ func (fl *c19Flow) solve() {
 				}
 				if s.in == nil {
 					s.in = map[uint32]bool{}
+				}
+				if fl.ghostEdge != nil {
+					st = fl.ghostEdge(b, i, s, st)
 				}
 				if !s.in[st] {
 					s.in[st] = true
